@@ -43,7 +43,7 @@ for c in $CHECKS; do
   o=$(cd /verif && ./check $c 2>&1 | grep -E "VIOLATION|quick:" | tail -1)
   RES="$RES$c: $o\n"
 done
-git -C /repo checkout -- . ; git -C /repo status --short | head -3
+git -C /repo checkout -- .; git -C /verif checkout -- evidence 2>/dev/null ; git -C /repo status --short | head -3
 echo -e "$RES" | tee -a $LOG
 mkdir -p $OUT; cp $D/patch.diff $D/demo.rs $D/meta.json $OUT/ 2>/dev/null
 python3 - <<PY
